@@ -52,6 +52,11 @@ claim("C06",
       "Bounds in the evidence assumptions; gobwas/glob itself is outside the claim.",
       "DESIGN.md C06")
 
+claim("C11",
+      "The real AuthenticateConnection is executed symbolically against an arbitrary user table and must succeed exactly when the named user exists, is enabled and is password-less or holds the supplied password in plaintext or as its SHA-256; a failed attempt must leave the connection's user and authenticated flag as they were and never touches other connections; new connections start as the default user; SETUSER / DELUSER edits are followed by AUTH probes; User.Replace/Merge (ACL LOAD) must carry flags and credentials over.",
+      "SHA-256 is modelled as an injective uninterpreted function (collision freedom assumed). File round trips of ACL SAVE/LOAD are not covered. Bounds in the evidence assumptions.",
+      "DESIGN.md C11")
+
 # every property without a claim is listed as not applicable (yet) with its reason
 NA_REASONS = {}
 for n in range(1, 21):
